@@ -32,6 +32,12 @@ class IOSpecUnpickler(pickle.Unpickler):
         self.manager = reader.system.iomanager
         self.model = reader.model
 
+    def load(self):
+        iospecs = super().load()
+        for spec in iospecs.values():
+            spec._io_group = self.model
+        return iospecs
+
     def persistent_load(self, pid):
 
         if pid[0] in ("BaseSharedIO", "BaseSharedData"):    # renamed in v0.20
